@@ -281,10 +281,23 @@ pub struct Family {
     pub async_trait: bool,
     /// `trait FamN: Send + Sync`
     pub send_sync: bool,
+    /// `trait FamN: Send` (only meaningful when `send_sync` is false)
+    #[serde(default)]
+    pub send_only: bool,
     pub tags: Vec<String>,
 }
 
 impl Family {
+    /// supertrait clause of the interface
+    pub fn bounds(&self) -> &'static str {
+        if self.send_sync {
+            ": Send + Sync"
+        } else if self.send_only {
+            ": Send"
+        } else {
+            ""
+        }
+    }
     pub fn compat_revs(&self) -> Vec<usize> {
         (0..self.revs.len()).filter(|i| !self.revs[*i].is_breaking()).collect()
     }
